@@ -287,7 +287,7 @@ func c12Real(w *W) {
 	mustSet(w, a, mangos.OptionRecvDeadline, 5*time.Second)
 	mustSet(w, b, mangos.OptionRecvDeadline, 5*time.Second)
 	needTLS := tran == "tls+tcp" || tran == "wss"
-	url := tran + "://127.0.0.1:0"
+	url := tran + "://" + loopIP + ":0"
 	sockPath := ""
 	switch tran {
 	case "ipc":
@@ -340,6 +340,7 @@ func c12Real(w *W) {
 	case "listen-inuse":
 		// somebody else holds the address first
 		var blocker interface{ Close() error }
+		blockedAddr := ""
 		if tran == "ipc" {
 			bl, err := net.Listen("unix", sockPath)
 			if err != nil {
@@ -347,11 +348,12 @@ func c12Real(w *W) {
 			}
 			blocker = bl
 		} else {
-			bl, err := net.Listen("tcp", "127.0.0.1:0")
+			bl, err := net.Listen("tcp", loopIP+":0")
 			if err != nil {
 				return
 			}
 			blocker = bl
+			blockedAddr = bl.Addr().String()
 			url = tran + "://" + bl.Addr().String()
 			if tran == "ws" || tran == "wss" {
 				url += "/sp"
@@ -387,14 +389,31 @@ func c12Real(w *W) {
 		if !ok {
 			return
 		}
+		for round := 0; e2 != nil && tran != "ipc"; round++ {
+			// is the address really free? (an unrelated process may have taken
+			// the port meanwhile: then there is nothing to judge)
+			pl, perr := net.Listen("tcp", blockedAddr)
+			if perr != nil {
+				w.Probe("freed-port-taken-by-someone-else")
+				return
+			}
+			pl.Close()
+			if round == 3 {
+				break
+			}
+			time.Sleep(20 * time.Millisecond)
+			if e2, ok = bound(10*time.Second, "Listen(retry, address free)", l.Listen); !ok {
+				return
+			}
+		}
 		if e2 != nil {
-			w.Failf("C12/retry-failed:"+tran, "%s: Listen failed while the address was in use (%v); after it was freed the retry on the same listener returned %v", tran, e1, e2)
+			w.Failf("C12/retry-failed:"+tran, "%s: Listen failed while the address was in use (%v); after it was freed (an independent bind of the same address succeeds) the retry on the same listener keeps returning %v", tran, e1, e2)
 			return
 		}
 		w.Probe("corrected-address-in-use")
 	case "dial-refused":
 		// nobody listens yet: a synchronous Dial fails and can be retried once the listener is up
-		probe, err := net.Listen("tcp", "127.0.0.1:0")
+		probe, err := net.Listen("tcp", loopIP+":0")
 		if err != nil {
 			return
 		}
